@@ -54,7 +54,7 @@ ASSUMPTIONS = [
     "streams never iterated and garbage-collection timing of abandoned generators are unspecified (the harness closes abandoned streams after taking its probes, before judging completion)",
     "a stream is consumed by one task from first item to end",
 ]
-MINIMUMS = {"monitor:items": 300, "monitor:body-state": 1000, "monitor:consumer-between": 500, "monitor:consumer-after": 300, "monitor:completion": 300, "creation_differs_from_consumption": 200, "consumed_while_cancelling": 60, "monitor:stream-owns-spawned": 100, "streams_created_in_the_context_of_a_left_scope": 12, "calls_of_callables_with_another_advertised_signature": 1, "streams_closed_early_with_a_task_that_never_ends_by_itself": 10, "consumers_cancelled_inside_a_step_of_the_stream": 8}
+MINIMUMS = {"monitor:items": 300, "monitor:body-state": 1000, "monitor:consumer-between": 500, "monitor:consumer-after": 300, "monitor:completion": 300, "creation_differs_from_consumption": 200, "consumed_while_cancelling": 60, "monitor:stream-owns-spawned": 100, "streams_created_in_the_context_of_a_left_scope": 12, "calls_of_callables_with_another_advertised_signature": 1, "streams_closed_early_with_a_task_that_never_ends_by_itself": 10, "consumers_cancelled_inside_a_step_of_the_stream": 8, "generators_ended_by_a_leaked_stop_async_iteration": 10}
 JOBS = {"quick": 4, "thorough": 8}
 LEVEL_TEXT = (
     "The product of generator shapes (0-5 items, end/raise, yields inside a nested scope, metric records, an inner stream) x 4 consumption places x full/break/aclose modes is "
@@ -172,6 +172,11 @@ def run_case(R: Recorder, case: dict[str, Any], verbose: bool = False) -> None:
                         yield x
         if end == "raise":
             log["gen_exc"] = GenErr("generator failed")
+            raise log["gen_exc"]
+        if end == "leak-stopasync":
+            # the body lets a StopAsyncIteration escape (a bare `await anext(inner)` on an exhausted inner iterator): Python ends such a
+            # generator with a RuntimeError (PEP 525) - a failure, not a normal end; that RuntimeError is the generator's exception
+            log["gen_exc"] = StopAsyncIteration("leaked out of the generator body")
             raise log["gen_exc"]
         if end == "raise-cancelled":
             # the generator itself ends with a CancelledError (e.g. it awaited something that was cancelled); the consumer is not cancelled
@@ -320,8 +325,12 @@ def run_case(R: Recorder, case: dict[str, Any], verbose: bool = False) -> None:
     produced, received, terminal = log["produced"], log["received"], log["terminal"]
     total = n_items + (2 if inner and n_items > 0 else 0)
     if k is None or k > total:
-        want_term = ("raise", log["gen_exc"]) if end in ("raise", "raise-cancelled") else ("end", None)
-        ok = len(received) == len(produced) and all(a is b for a, b in zip(received, produced)) and len(produced) == total and terminal is not None and terminal[0] == want_term[0] and (terminal[1] is want_term[1])
+        want_term = ("raise", log["gen_exc"]) if end in ("raise", "raise-cancelled", "leak-stopasync") else ("end", None)
+        same_end = terminal is not None and terminal[0] == want_term[0] and (terminal[1] is want_term[1])
+        if end == "leak-stopasync":
+            same_end = terminal is not None and terminal[0] == "raise" and type(terminal[1]) is RuntimeError and terminal[1].__cause__ is log["gen_exc"]
+            R.count("generators_ended_by_a_leaked_stop_async_iteration")
+        ok = len(received) == len(produced) and all(a is b for a, b in zip(received, produced)) and len(produced) == total and same_end
         kind = "sequence-differs" if received != produced or len(produced) != total else "terminal-outcome-differs"
     else:
         ok = received == produced[: len(received)] and len(received) == k and terminal is not None and terminal[0] in ("closed", "abandoned")
@@ -394,7 +403,7 @@ def run_case(R: Recorder, case: dict[str, Any], verbose: bool = False) -> None:
 def cases(tier: str, rng: random.Random):  # noqa: ANN201
     for place in ("same", "sibling", "outside", "task"):
         for n in (0, 1, 2, 3):
-            for end in ("stop", "raise", "raise-cancelled"):
+            for end in ("stop", "raise", "raise-cancelled", "leak-stopasync"):
                 modes = ["full"] + [f"break@{k}" for k in range(1, n + 1)] + [f"aclose@{k}" for k in range(1, n + 1)]
                 for mode in modes:
                     for nested_at in ([], [0], [n - 1] if n > 1 else []):
